@@ -95,6 +95,13 @@ def run_program(prog, chooser, lines=False, policy=()):
                 except KeyError:
                     pass
             state["ret"] = inner
+        if kind == "ret-exception":
+            # 'any object': an exception instance that is *returned* is a result, not a failure
+            state["ret"] = KeyError("returned, not raised")
+        elif kind == "ret-exception-class":
+            state["ret"] = ValueError
+        elif kind == "ret-none":
+            state["ret"] = None
         if kind.startswith("gated"):
             state["gate"] = D.Event()
 
@@ -433,6 +440,8 @@ MICRO = [
     {"task": "ret-future-pending", "threads": [[("result", 1.0), ("cb", "ok")]], "exec_first": True},
     {"task": "gated-raise", "threads": [[("cb", "callable-object"), ("cb", "method"), ("result", None)]], "exec_first": True},
     {"task": "ret", "argstyle": "none", "threads": [[("cb", "ok"), ("done",)]], "exec_first": True},
+    {"task": "ret-exception", "threads": [[("cb", "ok"), ("result", None)], [("result", None)]], "exec_first": True},
+    {"task": "ret-none", "threads": [[("result", None), ("cb", "ok")]], "exec_first": False},
     {"task": "raise", "argstyle": "kwargs", "threads": [[("result", None)], [("cb", "ok")]], "exec_first": False},
     {"task": "ret", "threads": [[("cb", "flex-typeerror"), ("result", None), ("cb", "flex-typeerror")]], "exec_first": True},
     {"task": "raise", "threads": [[("cb", "flex-ok")], [("cb", "flex-typeerror")]], "exec_first": False},
@@ -496,7 +505,8 @@ ops = gen.pick(
 @st.composite
 def random_cases(draw):
     prog = {
-        "task": draw(st.sampled_from(["ret", "ret", "raise", "raise", "gated-ret", "gated-raise", "ret-future-done", "ret-future-failed", "ret-future-pending"])),
+        "task": draw(st.sampled_from(["ret", "ret", "raise", "raise", "gated-ret", "gated-raise", "ret-future-done", "ret-future-failed", "ret-future-pending",
+                                     "ret-exception", "ret-exception", "ret-exception-class", "ret-none"])),
         "threads": draw(st.lists(st.lists(ops, min_size=1, max_size=3), min_size=1, max_size=2)),
         "exec_first": draw(st.booleans()),
         # the task's exception may be an instance whose truth value is False
